@@ -71,6 +71,18 @@ def Statement_view_read_frame : Prop :=
     (s.runView g r).1.dname = s.dname ∧ (∀ n ∈ s.ns, n ∈ (s.runView g r).1.ns) ∧
     (s.runView g r).2 = ((s.runView g r).1.runView g r).2
 
+/-- `ReadOnlyGraphAggregate` over views of the store (member list `gs`, duplicates allowed): `triples(pat)` are exactly
+    the matching triples some member holds (the skipping of triples an earlier member holds loses nothing),
+    `pat in agg` says whether there is one, `quads(pat)` are exactly the members' matching quads; and the four
+    reads leave the state literally unchanged -/
+def Statement_aggregate_reads : Prop :=
+  ∀ (s : State) (gs : List GName) (pat : Pat),
+    (∀ t, t ∈ aggTriples s.quads pat [] gs ↔ pat.matches t = true ∧ ∃ g ∈ gs, (t, g) ∈ s.quads) ∧
+    (aggContains s.quads pat gs = true ↔ ∃ t, t ∈ aggTriples s.quads pat [] gs) ∧
+    (∀ q, q ∈ aggQuads s.quads pat gs ↔ pat.matches q.1 = true ∧ q.2 ∈ gs ∧ q ∈ s.quads) ∧
+    (s.run (.aggLen gs)).1 = s ∧ (s.run (.aggTriples gs pat)).1 = s ∧
+    (s.run (.aggContains gs pat)).1 = s ∧ (s.run (.aggQuads gs pat)).1 = s
+
 /-- the pre-fix JSON-LD serializer (kept as `serializeJsonldBuggy`) would satisfy the frame clause -/
 def Statement_jsonld_buggy_frame : Prop :=
   ∀ (s : State), WF s → s.serializeJsonldBuggy.1.quads = s.quads
@@ -187,6 +199,18 @@ theorem view_read_frame : Statement_view_read_frame := by
   have f := runView_nsExt h g r
   exact ⟨f.quads, f.known, f.union, f.isDataset, f.dname, f.mono, runView_deterministic h g r⟩
 
+theorem aggregate_reads : Statement_aggregate_reads := by
+  intro s gs pat
+  have ht : ∀ t, t ∈ aggTriples s.quads pat [] gs ↔ pat.matches t = true ∧ ∃ g ∈ gs, (t, g) ∈ s.quads := by
+    intro t
+    rw [mem_aggTriples]
+    simp
+  refine ⟨ht, ?_, fun q => mem_aggQuads s.quads pat q gs, rfl, rfl, rfl, rfl⟩
+  rw [aggContains_iff]
+  constructor
+  · rintro ⟨t, h1, h2⟩; exact ⟨t, (ht t).mpr ⟨h1, h2⟩⟩
+  · rintro ⟨t, h⟩; exact ⟨t, (ht t).mp h⟩
+
 theorem same_store_view_is_noop : Statement_same_store_view_is_noop := by
   intro s g h
   refine ⟨graphView_eq h g, ?_⟩
@@ -235,13 +259,15 @@ example : WF sample := by decide
 example : WF witness := by decide
 /-- `graphs()` on `witness` really registers the default graph (the normalisation is needed) … -/
 example : (witness.run .graphs).1.known = [.bnode 3, .dflt] ∧ witness.known = [.bnode 3] := by decide
-/-- … and quad membership through a same-store view really executes store writes that change nothing -/
-example : (sample.run (.contains4 (none, none, none) (.view (.bnode 3)))).1.quads = sample.quads ∧
-    (sample.run (.contains4 (some 4, none, none) (.view (.bnode 3)))).2 = .bool true := by decide
+/-- … quad membership through a same-store view: the view is used as it is (no self-copy any more), the answer is
+    about THAT graph; the self-copy of the earlier code (`graphView`) really executed store writes that changed nothing -/
+example : (sample.run (.contains4 (none, none, none) (.view (.bnode 3)))).1 = sample ∧
+    (sample.run (.contains4 (some 4, none, none) (.view (.bnode 3)))).2 = .bool true ∧
+    (sample.run (.contains4 (some 1, none, none) (.view (.bnode 3)))).2 = .bool false ∧
+    (sample.graphView (.bnode 3)) = sample := by decide
 /-- without `WF` (a quad whose graph was never registered) the self-copy WOULD register the graph:
     the hypothesis is used -/
-example : ¬ SetEq ((⟨[((1, 10, 2), .iri 7)], [], false, true, .dflt, []⟩ : State).run
-      (.quads4 (none, none, none) (.view (.iri 7)))).1.graphNames
+example : ¬ SetEq ((⟨[((1, 10, 2), .iri 7)], [], false, true, .dflt, []⟩ : State).graphView (.iri 7)).graphNames
     (⟨[((1, 10, 2), .iri 7)], [], false, true, .dflt, []⟩ : State).graphNames := by
   intro h
   exact absurd ((h (.iri 7)).mp (by decide)) (by decide)
@@ -252,21 +278,21 @@ def sampleDocs : GName → Option (List Triple)
 
 /-- FROM / FROM NAMED: the answer is computed from scratch copies, the dataset is returned untouched -/
 example : (sample.run (.query ⟨[.dflt (.iri 1), .named (.bnode 3)], true, [], true, sampleDocs,
-      fun v => [[v.dflt.length, v.named.length]], .select⟩)) = (sample, .rows [[1, 1]]) := by decide
+      fun v => [[v.dflt.length, v.named.length]], .select, true⟩)) = (sample, .rows [[1, 1]]) := by decide
 /-- one known non-empty FROM graph plus a LOADABLE document (the shape of seeded change C13-4): the document's
     triples join the scratch default graph (1 + 2 triples are visible to the query), the dataset is untouched;
     with SPARQL_LOAD_GRAPHS off nothing is loaded; an IRI that cannot be loaded raises — state untouched -/
 example : (sample.run (.query ⟨[.dflt (.iri 1), .dflt (.iri 50)], false, [], true, sampleDocs,
-      fun v => [[v.dflt.length]], .select⟩)) = (sample, .rows [[3]]) := by decide
+      fun v => [[v.dflt.length]], .select, true⟩)) = (sample, .rows [[3]]) := by decide
 example : (sample.run (.query ⟨[.dflt (.iri 1), .dflt (.iri 50)], false, [], false, sampleDocs,
-      fun v => [[v.dflt.length]], .select⟩)) = (sample, .rows [[1]]) := by decide
+      fun v => [[v.dflt.length]], .select, true⟩)) = (sample, .rows [[1]]) := by decide
 example : (sample.run (.query ⟨[.dflt (.iri 1), .named (.iri 51)], false, [], true, sampleDocs,
-      fun v => [[v.dflt.length]], .select⟩)) = (sample, .err) := by decide
+      fun v => [[v.dflt.length]], .select, true⟩)) = (sample, .err) := by decide
 /-- CONSTRUCT and DESCRIBE fill a fresh result graph; `GRAPH <g>` switches the context's graph, not the dataset -/
 example : (sample.run (.query ⟨[], false, [.bnode 3], true, sampleDocs,
-      fun v => (v.named.map (fun b => b.2.length)) :: [], .construct (fun r => r.map (fun x => (x, x, x)))⟩))
+      fun v => (v.named.map (fun b => b.2.length)) :: [], .construct (fun r => r.map (fun x => (x, x, x))), true⟩))
     = (sample, .triples [(2, 2, 2)]) := by decide
-example : (sample.run (.query ⟨[], false, [], true, sampleDocs, fun _ => [[1]], .describe (fun _ => false)⟩))
+example : (sample.run (.query ⟨[], false, [], true, sampleDocs, fun _ => [[1]], .describe (fun _ => false), true⟩))
     = (sample, .triples [(1, 10, 2)]) := by decide
 
 /-! ### prefix bindings: really written by some reads, never part of the frame -/
@@ -307,6 +333,20 @@ example : (sample.runView (.bnode 3) (.serializeTurtle sampleNs)).1 = { sample w
     (sample.runView (.iri 77) (.serializeTurtle sampleNs)) = (sample, .triples []) := by decide
 /-- on `witness` (default graph not registered) a view read does NOT register it, the dataset's own `graphs()` does -/
 example : (witness.runView (.bnode 3) .serializeCtxs).1 = witness ∧ (witness.run .serializeCtxs).1 ≠ witness := by decide
+
+/-- an aggregate over the default graph, `urn:g:1` and the default graph again: `len` counts the shared triple three
+    times, `triples` yields it once, `quads` once per member -/
+example : (sample.run (.aggLen [.dflt, .iri 1, .dflt])).2 = .nat 3 ∧
+    (sample.run (.aggTriples [.dflt, .iri 1, .dflt] (none, none, none))).2 = .triples [(1, 10, 2)] ∧
+    (sample.run (.aggQuads [.dflt, .iri 1, .dflt] (some 1, none, none))).2
+      = .quads [((1, 10, 2), .dflt), ((1, 10, 2), .iri 1), ((1, 10, 2), .dflt)] ∧
+    (sample.run (.aggContains [.iri 1] (some 4, none, none))).2 = .bool false := by decide
+/-- `len` of a Dataset counts every triple of the store once (not the default graph, not per graph); iterating it
+    yields quads; `quads((…, g))` selects in `g` but reports every graph holding the triple -/
+example : (({ sample with defaultUnion := false } : State).run .len).2 = .nat 3 ∧
+    (sample.run .iter).2 = .quads sample.quads ∧
+    (sample.run (.quads4 (none, none, none) (.ident (.iri 1)))).2
+      = .quads [((1, 10, 2), .dflt), ((1, 10, 2), .iri 1)] := by decide
 
 /-! ### `skolemize(new_graph=…)`: a fresh graph is a read, a graph of the same store is a write -/
 
